@@ -430,7 +430,7 @@ def rule_progress(ctx):
 
 
 # per-device policy independence; upload constructor and size coercion
-IMPORTS = [('C05', 'C05.KEY'), ('C06', 'C06.CTOR'), ('C06', 'C06.COERCE'), ('C19', 'C19.LOCK'), ('C02', 'C02.DECODE'), ('C02', 'C02.LOOP')]  # C02.LOOP: every chunk read is processed at once (a payload never sits in the buffer waiting for later traffic)
+IMPORTS = [('C05', 'C05.KEY'), ('C06', 'C06.CTOR'), ('C06', 'C06.COERCE'), ('C19', 'C19.LOCK'), ('C02', 'C02.DECODE'), ('C02', 'C02.LOOP'), ('C03', 'C03.READ')]  # C02.LOOP: every chunk read is processed at once (a payload never sits in the buffer waiting for later traffic)
 
 RULES = [
     ("C08.VALUE", rule_value, "values.BLOB on constant payloads: size/base64/format/bytes follow the current payload, also after replacement; from_base64 inverts"),
